@@ -211,9 +211,23 @@ let run_x toks =
          let ix = function XPtr (i, _) -> Some (int_of_nat i) | _ -> None in
          let num = canon_numbering rows (fun r -> List.concat_map (fun (a, b) -> [ix a; ix b]) r) (ix root) in
          let rn = function XPtr (i, c) when int_of_nat i < Array.length num -> XPtr (nat_of_int num.(int_of_nat i), c) | x -> x in
-         String.concat " " (List.map (fun j ->
-           String.concat "+" (List.map (fun (a, b) -> show_xptr (rn a) ^ ":" ^ show_xptr (rn b)) rows.(j))) (Array.to_list (order_of_numbering num)))
-         ^ ";" ^ show_xptr (rn root)) pool)
+         if comp = "1" then
+           String.concat " " (List.map (fun j ->
+             String.concat "+" (List.map (fun (a, b) -> show_xptr (rn a) ^ ":" ^ show_xptr (rn b)) rows.(j))) (Array.to_list (order_of_numbering num)))
+           ^ ";" ^ show_xptr (rn root)
+         else begin
+           (* uncompressed: only the denotation of the table (its value on the 2^7 assignments of
+              variables 0..6, bit v of the row index = value of variable v) is compared *)
+           let eval a =
+             let vals = Array.make (Array.length rows) false in
+             let pv = function
+               | XPTrue -> true | XPFalse -> false
+               | XPLit (l, p) -> (((a lsr (int_of_n l)) land 1) = 1) = p
+               | XPtr (i, c) -> let i = int_of_nat i in (if i < Array.length vals then vals.(i) else false) <> c in
+             Array.iteri (fun i r -> vals.(i) <- List.exists (fun (p, s) -> pv p && pv s) r) rows;
+             pv root in
+           "tt:" ^ String.init 128 (fun a -> if eval a then '1' else '0')
+         end) pool)
      | OutOfFuel -> "X OUT_OF_FUEL"
      | Panic -> "X PANIC")
   | [] -> failwith "bad case"
